@@ -62,7 +62,7 @@ def required(tier):
             "cache_growths_observed": 5, "cache_insertions_observed": 500, "nojit_cached_returns_checked": 1000, "nojit_hits": 100,
             "nojit_misses": 100, "nojit_pedigree_returns": 100, "nojit_calling_returns": 100, "nojit_structural_returns": 50,
             "amap_ops": 5000, "amap_flushes": 20, "amap_hits": 1000, "ped_cache_entries_checked": 300,
-            "call_cache_entries_checked": 200, "ped_unequal_read_runs": 10, "tempered_runs": 5}
+            "call_cache_entries_checked": 200, "ped_unequal_read_runs": 10, "tempered_runs": 5, "call_cache_high_ploidy_runs": 3}
 
 
 # ---------------------------------------------------------------------------
@@ -478,20 +478,38 @@ def run_dict(tier, seed, spec, col):
             for pi in range(len(K.pairs)):
                 PM.pair_allele_swap_step(**K.swap_args(state, pi, cache))
         col.case({"kind": "pedcache", "ped": pedgen.pack(P_I), "r": r}, nontrivial=True)
-        for (smp, gi), v in cache.items():
-            if smp < 0:
-                continue
+        # every value the cache now SERVES (key format is the implementation's business): ask the real cached wrapper
+        # for every genotype of every sample and compare with the fresh value for that sample's own reads
+        from mchap.pedigree import likelihood as PLK
+        import itertools as _it
+
+        served_bad = False
+        for smp in range(len(P_I["ploidy"])):
             ploidy = int(P_I["ploidy"][smp])
-            g = tuple(unrank(int(gi), ploidy))
-            want = J.llk(int(smp), g)
-            col.count("ped_cache_entries_checked")
-            if not llk_close(float(v), want):
-                col.violation("cache-holds-wrong-likelihood", "pedigree cache entry (sample %d, genotype %s) = %.12g but that sample's own reads give %.12g [%s; distinct reads per sample %s]"
-                              % (smp, g, v, want, P_I["name"], nreads.tolist()), {"pedigree": pedgen.pack(P_I)})
+            keep = P_I["counts"][smp] > 0
+            gl = list(_it.combinations_with_replacement(range(len(P_I["haps"])), ploidy))
+            if len(gl) > 300:
+                gl = [gl[i] for i in rng.permutation(len(gl))[:300]]
+            for g in gl:
+                got = float(PLK.log_likelihood_alleles_cached(P_I["reads"][smp][keep], P_I["counts"][smp][keep], P_I["haps"], smp, np.array(g, dtype=np.int16), cache))
+                want = J.llk(int(smp), tuple(g))
+                col.count("ped_cache_entries_checked")
+                if not llk_close(got, want):
+                    col.violation("cache-holds-wrong-likelihood", "pedigree cache serves %.12g for (sample %d, genotype %s) but that sample's own reads give %.12g [%s; distinct reads per sample %s]"
+                                  % (got, smp, g, want, P_I["name"], nreads.tolist()), {"pedigree": pedgen.pack(P_I)})
+                    served_bad = True
+                    break
+            if served_bad:
                 break
-        # ---- call
-        haps, na = gen.gen_haplotype_set(rng, int(rng.integers(2, 7)), int(rng.integers(1, 5)))
-        ploidy = int(rng.integers(2, 5))
+        # ---- call (also pooled / high ploidy genotypes with few haplotypes)
+        from mchap.calling import likelihood as CLK
+
+        if rng.random() < 0.3:
+            ploidy = int(rng.choice([8, 10, 12]))
+            haps, na = gen.gen_haplotype_set(rng, int(rng.integers(2, 4)), int(rng.integers(1, 4)))
+        else:
+            ploidy = int(rng.integers(2, 5))
+            haps, na = gen.gen_haplotype_set(rng, int(rng.integers(2, 7)), int(rng.integers(1, 5)))
         creads = gen.gen_reads_from_haps(rng, haps[rng.integers(0, len(haps), size=ploidy)], int(rng.integers(1, 12)), na, n_nucl=int(max(2, na.max())))
         ccounts = rng.integers(1, 4, size=len(creads)).astype(np.int64)
         Mx = M.hap_read_matrix(creads, haps)
@@ -500,14 +518,17 @@ def run_dict(tier, seed, spec, col):
         g = np.sort(rng.integers(0, len(haps), size=ploidy)).astype(np.int32)
         for it in range(30):
             CM.compound_step(g, haps, creads, ccounts, 0.1, None, d, int(rng.integers(0, 2)))
-        for gi, v in d.items():
-            if gi < 0:
-                continue
-            gg = unrank(int(gi), ploidy)
-            want = M.log_likelihood_alleles_fast(Mx, gg, ccounts)
+        gl = list(_it.combinations_with_replacement(range(len(haps)), ploidy))
+        if len(gl) > 400:
+            gl = [gl[i] for i in rng.permutation(len(gl))[:400]]
+        if ploidy >= 8:
+            col.count("call_cache_high_ploidy_runs")
+        for gg in gl:
+            got = float(CLK.log_likelihood_alleles_cached(creads, ccounts, haps, np.array(gg, dtype=np.int32), d))
+            want = M.log_likelihood_alleles_fast(Mx, list(gg), ccounts)
             col.count("call_cache_entries_checked")
-            if not llk_close(float(v), want):
-                col.violation("cache-holds-wrong-likelihood", "call cache entry genotype %s = %.12g, fresh %.12g" % (gg, v, want), {"haps": haps.tolist()})
+            if not llk_close(got, want):
+                col.violation("cache-holds-wrong-likelihood", "call cache serves %.12g for genotype %s (ploidy %d, %d haplotypes), fresh %.12g" % (got, gg, ploidy, len(haps), want), {"haps": haps.tolist()})
                 break
         if r == 0 and spec["shard"] == 30:
             col.sample({"pedigree_cache_entries": len(cache), "scenario": P_I["name"], "distinct_reads_per_sample": nreads.tolist()})
